@@ -359,7 +359,8 @@ SPEC = PropSpec(
                  "base cycle, self base, nesting cycle) must be rejected at load (any exception, including the "
                  "interpreter's recursion limit for cycles); an identical duplicate container may be tolerated if the "
                  "graph stays consistent. R17.1 structural: every registry insert is dominated by a membership test. "
-                 "R17.3: inheritor lists have one writer; mutable dataclass defaults are factories."),
+                 "R17.3: inheritor lists have one writer; mutable dataclass defaults are factories."
+                 ' Graph variants include unconditional inheritance and a forward-referenced diamond (a container nested directly and through another nested container).'),
     rule_doc="R17.g per element order; R17.c per corruption; R17.1 per registry insert; R17.3 per writer/default",
     assumptions=["lxml ElementPath semantics as modelled", "cycles are rejected through Python's recursion limit (RecursionError)"],
     mutants=mutants,
